@@ -75,6 +75,12 @@ def check_stop(ctx, case):
         a_state, a_key = gen.L(case, a_state), gen.L(case, a_key, 3)       # C / Fortran / strided / negative-stride views
     s0, k0 = a_state.copy(), a_key.copy()
     out = must(case, 'des.%s(%s, form=%d, shape=%s)' % (mode, kw, form, shape), f, a_state, a_key, **kw)
+    if case.get('hold', gen.layout_of(case, 7) in ('F', 'strided')):
+        # the result is kept while the function is called again with other arguments of the same shapes: it must not change
+        try:
+            f(np.roll(a_state, 1, axis=-1), np.roll(a_key, 1, axis=-1), **kw)
+        except Exception:
+            pass
     npass = master.shape[1] // 8
     npass = 1 if npass == 1 else 3
     e_des = (npass - 1) if at_des is None else at_des
@@ -103,9 +109,17 @@ def check_stop(ctx, case):
 
 def _mk(mode, form, at_des, rnd, step, shape, dt, g):
     ks = {8: 8, 16: 16, 24: 24, 128: 8, 256: 16, 384: 24}[form]
-    n = int(g.integers(1, 4)) if shape != 'one-one' else 1
+    n = int(g.integers(1, 6)) if shape != 'one-one' else 1
     keys = g.integers(0, 256, size=(n if shape in ('one-many', 'paired') else 1, ks)).astype('uint8')
     blocks = g.integers(0, 256, size=(n if shape in ('many-one', 'paired') else 1, 8)).astype('uint8')
+    for arr in (keys, blocks):
+        # batches with repeated rows: first row == last row with other rows in between, or all rows equal
+        if len(arr) >= 3:
+            r = int(g.integers(4))
+            if r == 0:
+                arr[-1] = arr[0]
+            elif r == 1:
+                arr[:] = arr[0]
     return {'kind': 'stop', 'mode': mode, 'form': form, 'at_des': at_des, 'at_round': rnd, 'after_step': step, 'shape': shape, 'dtype': dt,
             'keys': keys, 'blocks': blocks}
 
